@@ -31,6 +31,7 @@ const (
 	nReset  = "ResetSequence"
 	nSet    = "ObjectSetters"
 	nAlias  = "ObjectAliasing"
+	nExpObj = "ExpandObject"
 	nPInt   = "ParseInt"
 	nAtoi   = "Atoi"
 	nFmt    = "FormatInt"
@@ -119,6 +120,26 @@ func fnExpand() *run.Fn {
 			return w.B(false)
 		}
 		return w.Strs(transform.ConvertExtendedSpatialIDToSpatialIDs(o))
+	}}
+}
+// ExpandObject: the expansion must leave the caller's object alone. One parsed object is expanded, read back (ID(), accessors, FieldParams())
+// and expanded again; observed: [first result; [ID; accessors; FieldParams]; second result]. Parse errors and refused sizes as in fnExpand.
+func fnExpandObject() *run.Fn {
+	return &run.Fn{Name: nExpObj, Invoke: func(a []w.Val) w.Val {
+		o, err := object.NewExtendedSpatialID(w.AsStr(a[0]))
+		if err != nil {
+			return w.Err{V: w.Nil{}}
+		}
+		if expandRefused(o) {
+			return w.B(false)
+		}
+		r1 := w.Strs(transform.ConvertExtendedSpatialIDToSpatialIDs(o))
+		back := w.L(w.S(o.ID()), w.L(w.I(o.HZoom()), w.I(o.X()), w.I(o.Y()), w.I(o.VZoom()), w.I(o.Z())), w.Ints(o.FieldParams()))
+		if expandRefused(o) { // the object was damaged so badly that a second expansion could hang: report what was read back
+			return w.L(r1, back, w.Strs(nil))
+		}
+		r2 := w.Strs(transform.ConvertExtendedSpatialIDToSpatialIDs(o))
+		return w.L(r1, back, r2)
 	}}
 }
 func fnVoxel() *run.Fn {
@@ -1171,7 +1192,7 @@ func init() {
 	Scale["C10"] = 10000
 	Registry["C10"] = func(r *run.Runner, g *Gen, n int) {
 		base := map[string]*run.Fn{}
-		for _, f := range []*run.Fn{fnS2E(), fnE2S(), fnRoundTrip(), fnParsePrint(), fnExpand(), fnVoxel(), fnResetSeq(), fnSetters(), fnAliasing(), fnParseInt(), fnAtoi(), fnFormatInt(), fnItoa(), fnSplit(), fnJoin()} {
+		for _, f := range []*run.Fn{fnS2E(), fnE2S(), fnRoundTrip(), fnParsePrint(), fnExpand(), fnExpandObject(), fnVoxel(), fnResetSeq(), fnSetters(), fnAliasing(), fnParseInt(), fnAtoi(), fnFormatInt(), fnItoa(), fnSplit(), fnJoin()} {
 			base[f.Name] = f
 			r.Register(primed(f))
 		}
@@ -1205,6 +1226,10 @@ func init() {
 					c = caseParsePrint(g)
 				case 8, 9, 10:
 					c = caseExpand(g)
+					if i%3 == 0 { // same inputs, but the caller keeps the object: expanded, read back, expanded again
+						c.Fn = nExpObj
+						c.Tags = append(c.Tags, "object-kept")
+					}
 				default:
 					c = caseVoxel(g)
 				}
